@@ -397,7 +397,60 @@ func Generate(r *vlib.Rng, p Profile) *Doc {
 		d.MBoxes = g.marginBoxes()
 		g.tags["margin-boxes"] = true
 	}
+	// drawn last so that everything above is unchanged for a job seed
+	if p.Rules && r.Chance(1, 3) {
+		d.Rules = append(d.Rules, g.axisRule())
+		g.tags["page-axis-rule"] = true
+		d.Number() // the structural tags of the known findings are computed from the rules too
+	}
 	return d
+}
+
+// axisRule is one @page rule that constrains one or both axes of the page box completely:
+// an explicit width / height, the two margins of the axis in every auto / length combination
+// (only the first auto, only the second, both, none: over-constrained) and, mostly, padding
+// on that axis, so that every branch of the width / height equation (pageWidthOrHeight) is
+// reached with a non-zero padding.  Independent declarations almost never combine that way.
+func (g *gen) axisRule() Rule {
+	r := g.r
+	var rule Rule
+	if r.Chance(1, 2) {
+		rule.Sels = []Sel{{}}
+	} else {
+		s := g.sel()
+		rule.Sels = []Sel{s}
+	}
+	axis := r.Intn(3) // 0 horizontal, 1 vertical, 2 both
+	margin := func() Val {
+		switch r.Intn(5) {
+		case 0, 1:
+			return Val{Kind: 0}
+		case 2:
+			return Val{Kind: 2, V: vlib.Pick(r, []float64{0, 12.5, 25})}
+		}
+		return Val{Kind: 1, V: float64(r.Range(0, 8)) * 4}
+	}
+	pad := func() Val {
+		if r.Chance(1, 4) {
+			return Val{Kind: 1, V: 0}
+		}
+		return Val{Kind: 1, V: float64(r.Range(1, 6)) * 4}
+	}
+	one := func(inner, inV, mA, mB, pA, pB int) {
+		rule.Decls = append(rule.Decls, Decl{Prop: inner, V: Val{Kind: 1, V: float64(inV)}})
+		rule.Decls = append(rule.Decls, Decl{Prop: mA, V: margin()}, Decl{Prop: mB, V: margin()})
+		if r.Chance(3, 4) {
+			rule.Decls = append(rule.Decls, Decl{Prop: pA, V: pad()}, Decl{Prop: pB, V: pad()})
+			g.tags["page-axis-padding"] = true
+		}
+	}
+	if axis != 1 {
+		one(5, 8*r.Range(10, 24), 4, 2, 10, 8)
+	}
+	if axis != 0 {
+		one(6, g.hc-8*r.Range(0, 3), 1, 3, 7, 9)
+	}
+	return rule
 }
 
 // MarginAts are the margin boxes the generator adds (@bottom-center always shows
